@@ -554,6 +554,12 @@ func init() {
 	// the same runs: the close races Dial / NewDialer / redial timers, and the
 	// quiet period sees any attempt made afterwards
 	register(&Scenario{Name: "close-at-any-phase", Prop: "C14", Horizon: time.Hour, Weight: 3, Run: c10Run})
+	// C11: Close racing Send, Recv, option calls, Dial, Listen and endpoint
+	// creation from other goroutines is the densest concurrent program there
+	// is; whatever one of those calls leaves behind because Close overtook it
+	// (an endpoint registered after Close had swept the lists) shows in the
+	// census
+	register(&Scenario{Name: "close-racing-every-call", Prop: "C11", Horizon: time.Hour, Weight: 4, Run: c10Run})
 }
 
 // c10CloseFromHook: the application closes the listener (or the dialer, or the
